@@ -2,6 +2,7 @@ package main
 
 import (
 	"bytes"
+	"encoding/json"
 	"fmt"
 	"os"
 	"runtime"
@@ -31,6 +32,12 @@ func execC08Inner(c Case) string {
 	case "json":
 		var msg pb.GetBlockResponse
 		err := jsonpb.Unmarshal(bytes.NewReader(unhx(c.Args[0])), &msg)
+		// the streaming entry point must treat the same document the same way
+		var msg2 pb.GetBlockResponse
+		err2 := jsonpb.UnmarshalNext(json.NewDecoder(bytes.NewReader(unhx(c.Args[0]))), &msg2)
+		if (err == nil) != (err2 == nil) {
+			return "unmarshal/unmarshalnext disagree"
+		}
 		if err != nil {
 			return "err"
 		}
